@@ -370,8 +370,13 @@ func (x *Exec) cxCallTerm(env *cxEnv, y *cxCall) Term {
 			v = x.entry.fields[key]
 		}
 		if v == nil {
-			x.undecide("contract: fieldmap of untouched field %s (declare it with a read first)", key)
-			return tBool("true")
+			vs := x.fieldSortByKey(key)
+			if vs == "" {
+				x.undecide("contract: fieldmap of unknown field %s", key)
+				return tBool("true")
+			}
+			x.fieldVer(env.live, key, vs)
+			v = x.entry.fields[key]
 		}
 		return Term{S: v.term, Sort: v.sort}
 	case "isa":
@@ -399,6 +404,30 @@ func (x *Exec) cxCallTerm(env *cxEnv, y *cxCall) Term {
 		}
 		x.undecide("contract: iface: unknown node type")
 		return tBool("true")
+	case "as":
+		v := x.cxEval(env, y.Args[0])
+		id, _ := y.Args[1].(*cxIdent)
+		if id != nil {
+			if o := x.unit.Pkg.Types.Scope().Lookup(id.Name); o != nil {
+				v.T = types.NewPointer(o.Type())
+				if v.Sort == "Iface" {
+					v = Term{S: "(iref " + v.S + ")", Sort: "Ref", T: v.T}
+				}
+				return v
+			}
+		}
+		x.undecide("contract: as: unknown type in %s", y.cxs())
+		return v
+	case "theNew":
+		id, _ := y.Args[0].(*cxIdent)
+		if id == nil {
+			x.undecide("contract: theNew needs a type name")
+			return Term{S: "nilRef", Sort: "Ref"}
+		}
+		if t, ok := env.live.ghost["new:"+id.Name]; ok {
+			return t
+		}
+		return Term{S: x.d.constant("theNew_"+id.Name, "Ref"), Sort: "Ref"}
 	case "ptr":
 		v := x.cxEval(env, y.Args[0])
 		if v.Sort == "Iface" {
@@ -504,7 +533,7 @@ func (x *Exec) modelApply(env *cxEnv, mu *UnitSpec, args []Term) Term {
 		x.hdr = savedHdr
 		return r
 	}
-	if x.revealed[mu.Key] {
+	if x.revealed[mu.Key] || mu.Flags["pred"] {
 		return expand()
 	}
 	// caller mode: (select MF obj) [idx...]
@@ -559,6 +588,28 @@ func (x *Exec) modelApply(env *cxEnv, mu *UnitSpec, args []Term) Term {
 		s = fmt.Sprintf("(select %s %s)", s, a.S)
 	}
 	return Term{S: s, Sort: vs, T: x.modelType[mu.Key]}
+}
+
+// fieldSortByKey: value sort of heap key "pkg.Type.field" of the unit's package.
+func (x *Exec) fieldSortByKey(key string) string {
+	parts := strings.Split(key, ".")
+	if len(parts) != 3 {
+		return ""
+	}
+	o := x.unit.Pkg.Types.Scope().Lookup(parts[1])
+	if o == nil {
+		return ""
+	}
+	stt, _ := o.Type().Underlying().(*types.Struct)
+	if stt == nil {
+		return ""
+	}
+	for i := 0; i < stt.NumFields(); i++ {
+		if stt.Field(i).Name() == parts[2] {
+			return x.d.sortOf(stt.Field(i).Type())
+		}
+	}
+	return ""
 }
 
 func (x *Exec) typeParamNamed(id *cxIdent) *types.TypeParam {
